@@ -102,6 +102,29 @@ func evalLib(c C06Case) (res m.Term, err error, pan any) {
 	if le != nil {
 		return m.Term{}, nil, "unliftable result: " + le.Error()
 	}
+	// evaluation is a function of its operands: it must leave them as they were (they are
+	// shared with the facts they came from) and give the same value when asked again
+	for i, op := range expr {
+		if v, ok := op.(datalog.Value); ok {
+			now, err := bridge.LiftDLTerm(v.ID, syms)
+			if err != nil || now.Key() != c.Ops[i].Val.Key() {
+				return m.Term{}, nil, fmt.Sprintf("evaluation modified its operand %s (now %s)", c.Ops[i].Val.Text(), now.Text())
+			}
+		}
+	}
+	for _, k := range names {
+		now, err := bridge.LiftDLTerm(*vals[datalog.Variable(syms.Insert(k))], syms)
+		if err != nil || now.Key() != c.Env[k].Key() {
+			return m.Term{}, nil, fmt.Sprintf("evaluation modified the value bound to $%s: %s (now %s)", k, c.Env[k].Text(), now.Text())
+		}
+	}
+	out2, e2 := expr.Evaluate(vals, syms)
+	if e2 != nil {
+		return m.Term{}, nil, fmt.Sprintf("second evaluation of the same expression failed: %v", e2)
+	}
+	if lt2, err := bridge.LiftDLTerm(out2, syms); err != nil || lt2.Key() != lt.Key() {
+		return m.Term{}, nil, fmt.Sprintf("second evaluation of the same expression gives %s, the first gave %s", lt2.Text(), lt.Text())
+	}
 	return lt, nil, nil
 }
 
@@ -153,6 +176,9 @@ func checkC06(c C06Case, rec *obs.Recorder) *obs.Violation {
 		}
 	}
 
+	if s, ok := pan.(string); ok && (strings.HasPrefix(s, "evaluation modified") || strings.HasPrefix(s, "second evaluation")) {
+		return obs.ViolK("side-effect", "[%s]: %s", c.text(), s)
+	}
 	if pan != nil {
 		return obs.ViolK("panic", "Evaluate panicked on [%s]: %v", c.text(), pan)
 	}
